@@ -64,6 +64,22 @@ def h_setters(cx, sp, seq, check_each=True):
     _check_views(cx, 'roundtrip_weights', obj, P, W)
 
 
+def h_caller_lists(cx, sp):
+    """the lists handed to the setters stay the caller's: changing them afterwards must not change the shape's views"""
+    obj, info = shapes.build(cx, sp)
+    n = _n(obj)
+    P = [list(p) for p in info['P']]
+    V = cx.reals('V', n, positive=True)
+    mine = list(V)
+    obj.weights = mine
+    mine[0] = mine[0] + 1          # the caller re-uses its working list
+    mine[-1] = mine[-1] + 2
+    _check_views(cx, 'after_weights_list_reused', obj, P, list(V))
+    Q = cx.points('Q', n, sp['dim'])
+    obj.ctrlpts = [list(q) for q in Q]
+    _check_views(cx, 'after_ctrlpts', obj, [list(q) for q in Q], list(V))
+
+
 def h_helpers(cx, n, dim, su=None):
     C = geo.M('compatibility')
     P = cx.points('P', n, dim)
@@ -116,6 +132,21 @@ def h_grid(cx, nu, nv, scenario):
         g.weight = list(V)
         cx.eq('grid_after_second_weight', g.grid, expect(V))
         cx.eq('weight_view', list(g.weight), V)
+    elif scenario == 'regenerate':
+        first = g.grid                       # default weights, cached
+        g.generate(nv + 1, nu)
+        n2 = (nv + 2) * (nu + 1)
+        second = g.grid
+        cx.check('regenerated_shape', len(second) == nv + 2 and all(len(r) == nu + 1 for r in second), '%d rows' % len(second))
+        cx.eq('regenerated_grid', second, [[[cx.const(F(3 * i, nv + 1)), cx.const(F(2 * j, nu)), cx.const(0), 1] for j in range(nu + 1)] for i in range(nv + 2)])
+        return
+    elif scenario == 'reset':
+        g.weight = list(W)
+        g.grid
+        g.reset()
+        g.generate(nu, nv)
+        cx.eq('grid_after_reset', g.grid, expect([1] * npts))
+        return
     elif scenario == 'scalar':
         k = cx.real('k', positive=True)
         g.weight = k
@@ -186,6 +217,7 @@ def instances(tier):
                 continue
             out.append(inst('%s setters %s' % (spec_name(sp), '>'.join(seq)), h_setters, timeout=600, sp=sp, seq=seq))
         out.append(inst('%s scale_weights' % spec_name(sp), h_scale_weights, timeout=900, sp=sp))
+        out.append(inst('%s caller lists' % spec_name(sp), h_caller_lists, timeout=900, sp=sp))
         out.append(inst('%s nurbs_to_bspline' % spec_name(sp), h_to_bspline_rational, timeout=900, sp=sp))
         for seq in [('ctrlptsw', 'ctrlpts'), ('set_ctrlpts', 'ctrlpts'), ('set_ctrlpts', 'weights'), ('ctrlptsw', 'weights', 'ctrlpts'), ('weights', 'ctrlpts'),
                     ('ctrlpts', 'weights'), ('ctrlptsw', 'ctrlptsw', 'ctrlpts'), ('ctrlpts', 'ctrlpts'), ('weights', 'weights', 'ctrlpts')]:
@@ -194,7 +226,7 @@ def instances(tier):
         out.append(inst('helpers n%d dim%d su%s' % (n, dim, su), h_helpers, n=n, dim=dim, su=su))
     grids = [(1, 2), (2, 1), (2, 3), (3, 2)] + ([] if quick else [(4, 3), (2, 4), (1, 1)])
     for nu, nv in grids:
-        for sc in ('set_then_read', 'read_set_read', 'set_twice', 'scalar'):
+        for sc in ('set_then_read', 'read_set_read', 'set_twice', 'scalar', 'regenerate', 'reset'):
             out.append(inst('gridweighted %dx%d %s' % (nu, nv, sc), h_grid, nu=nu, nv=nv, scenario=sc))
     for sp in (spec('curve', (2,), ((1,),)), spec('surface', (1, 2), ((1,), ())), spec('volume', (1, 1, 2), ((), (1,), ()))):
         out.append(inst('%s convert' % spec_name(sp), h_convert, timeout=900, sp=sp))
